@@ -62,9 +62,7 @@ class World:
             # pool.py stores time.time in _idle_clock at construction: substitute the virtual clock first
             import pymemcache.pool as poolmod
 
-            _PT = self.clock.module_shim()
-            self._saved_pool_time = (poolmod, poolmod.time)
-            poolmod.time = _PT
+            self._restore_clocks = getattr(self, "_restore_clocks", []) + [self.clock.patch_module(poolmod)]
         first = servers[0] if isinstance(servers[0], str) else (servers[0][0], servers[0][1])
         hash_servers = [s if isinstance(s, str) else (s[0], s[1]) for s in servers]
         if stack == "client":
@@ -83,17 +81,12 @@ class World:
 
     # virtual time for hash.py (module global looked up at call time)
     def patch_time(self, hashmod):
-        _T = self.clock.module_shim()
-        self._saved_time = (hashmod, hashmod.time)
-        hashmod.time = _T
+        self._restore_clocks = getattr(self, "_restore_clocks", []) + [self.clock.patch_module(hashmod)]
 
     def close(self):
-        sv = getattr(self, "_saved_time", None)
-        if sv:
-            sv[0].time = sv[1]
-        sv = getattr(self, "_saved_pool_time", None)
-        if sv:
-            sv[0].time = sv[1]
+        for r_ in reversed(getattr(self, "_restore_clocks", [])):
+            r_()
+        self._restore_clocks = []
 
     def inner_clients(self):
         """Every pymemcache Client object that may own a socket (for leak accounting)."""
